@@ -87,7 +87,7 @@ class History:
         if kind == 'acquire':
             ep = w.A if args[0] == 'A' else w.B
             me = ep.addrs[0]
-            peer = W.IP_B if me == W.IP_A else W.IP_A
+            peer = w.ip_b if me == w.ip_a else w.ip_a
             prot = list(ep.configuration.ike_configurations.values())[0].protect[0]
             sport = args[1] if len(args) > 1 else 0
             idx = args[2] if len(args) > 2 else prot.index
